@@ -18,6 +18,7 @@ pub struct Case {
 fn main() {
     vh_common::install_panic_hook();
     let args = Args::parse();
+    vh_common::install_hang_watchdog(&args.prop);
     if args.prop == "replay" {
         let path = args.replay.clone().expect("replay file");
         let j = vh_common::parse_json(&std::fs::read_to_string(&path).expect("read")).expect("json");
@@ -69,6 +70,7 @@ fn main() {
                 let mut finds = Vec::new();
                 let mut i = wk as u64;
                 while i < n {
+                    let _case = vh_common::CaseGuard::new(format!("c16 case {}", i));
                     let mut c = c16::history(seed, i);
                     // verdicts that rest on a generous wall-clock watchdog are only believed if they repeat
                     if c.violations.first().map(|v| ["get_hang", "harness", "capacity", "unusable_connection_issued"].contains(&v.oracle)).unwrap_or(false) {
@@ -114,6 +116,7 @@ fn main() {
                 let mut finds = Vec::new();
                 let mut i = wk as u64;
                 while i < n_race {
+                    let _case = vh_common::CaseGuard::new(format!("c16_cache_race case {}", i));
                     let c = c16::cache_race(seed, i);
                     cov.evaluations += 1;
                     cov.events += c.events;
@@ -148,6 +151,7 @@ fn main() {
                 let mut finds = Vec::new();
                 let mut i = wk as u64;
                 while i < n_reg {
+                    let _case = vh_common::CaseGuard::new(format!("c16_registry_race case {}", i));
                     let c = c16::registry_race(seed, i);
                     cov.evaluations += 1;
                     cov.events += c.events;
